@@ -16,12 +16,12 @@ import (
 // zzBackend: the backend side of a proxied connection. It answers with `reply` once it
 // has received at least `need` bytes; reads block (on a channel) until then.
 type zzBackend struct {
-	got    []byte
-	reply  []byte
-	need   int
-	ready  chan struct{}
-	sent   bool
-	closed bool
+	got       []byte
+	reply     []byte
+	need      int
+	ready     chan struct{}
+	sent      bool
+	closed    bool
 	signalled bool
 }
 
